@@ -243,6 +243,11 @@ pub fn install_panic_hook() {
     }));
 }
 
+/// message (and location) of the last panic seen by this thread
+pub fn last_panic_message() -> String {
+    LAST_PANIC.with(|p| p.borrow().clone())
+}
+
 /// Runs a library call, converting a panic into a value.
 pub fn guard<T>(f: impl FnOnce() -> T) -> Result<T, String> {
     IN_GUARD.with(|g| g.set(g.get() + 1));
